@@ -78,6 +78,8 @@ def gen_program(rng, cfg):
         spec["falsy_holder"] = True
     if (d // 72) % 3 == 0:
         spec["sv_subclass"] = True
+    if (d // 216) % 4 == 0:
+        spec["pause_returns"] = True
     if (d // 18) % 4 == 0:
         # results that cannot be compared (== raises, like an array's): "const" results become such
         def walk(steps):
